@@ -301,6 +301,45 @@ pub fn run(ctx: &mut Ctx) {
             ctx.count("oversized-values-decoded");
         }
     }
+    // ---- the two types without an upper limit at the very top of the 16-bit length (65 528 .. 65 535
+    //      bytes, where the padded length needs 17 bits): encode, layout, decode(encode(v)) = v ----
+    for len in 65_526usize..=65_535 {
+        idx += 1;
+        if !ctx.mine(idx) {
+            continue;
+        }
+        let text: String = (0..len).map(|i| (b'a' + (i % 26) as u8) as char).collect();
+        check_encode(ctx, Kind::AlternateDomain, &RefVal::Text(text), &tids[len % 3]);
+        check_decode(ctx, Kind::AlternateDomain, Kind::AlternateDomain.code(), &vec![b'z'; len], &tids[len % 3]);
+        let n = len / 2;
+        check_encode(ctx, Kind::UnknownAttributes, &RefVal::TypeList((0..n).map(|i| i as u16).collect()), &tids[len % 3]);
+        check_decode(ctx, Kind::UnknownAttributes, Kind::UnknownAttributes.code(), &vec![0x7f; n * 2], &tids[len % 3]);
+        ctx.count("top-of-length-range-values");
+    }
+    ctx.require("top-of-length-range-values", 10);
+    // ---- address decoders: every family byte x the lengths around both valid sizes (the family and
+    //      the size must agree) ----
+    for k in [Kind::XorMappedAddress, Kind::AlternateServer] {
+        for fam in [0u8, 1, 2, 3, 0x11, 0xff] {
+            for len in [0usize, 3, 4, 7, 8, 9, 12, 16, 19, 20, 21, 24] {
+                idx += 1;
+                if !ctx.mine(idx) {
+                    continue;
+                }
+                let mut rng = ctx.rng("address-family-by-size", idx);
+                for first in [0u8, 1] {
+                    let mut v = rng.bytes(len);
+                    if len >= 2 {
+                        v[0] = first;
+                        v[1] = fam;
+                    }
+                    check_decode(ctx, k, k.code(), &v, &tids[len % 3]);
+                }
+                ctx.count("address-family-by-size");
+            }
+        }
+    }
+    ctx.require("address-family-by-size", 100);
     // ---- every one of the 65 536 type codes against every decoder, with a value that is valid for
     //      that decoder: only its own code is accepted, every other one is the wrong implementation ----
     {
